@@ -615,7 +615,10 @@ func checkLinkerRootTest(w *World, r *Result) {
 	n := 0
 	ast.Inspect(fi.Decl.Body, func(x ast.Node) bool {
 		call, ok := x.(*ast.CallExpr)
-		if !ok || fullName(calleeOf(info, call)) != "strings.HasPrefix" || len(call.Args) != 2 {
+		if !ok || len(call.Args) != 2 {
+			return true
+		}
+		if full := fullName(calleeOf(info, call)); full != "strings.HasPrefix" && full != "strings.CutPrefix" {
 			return true
 		}
 		n++
